@@ -582,9 +582,25 @@ def c17_eval_world(world, root, stats):
                    "dry_run": False, "wip": False, "junit": False, "listfile": None})
         c2["formatters"] = [["plain", "out/plain_second.txt"]]
         c2["paths"] = locs
-        c2["paths_raw"] = ["@" + outp]
-        w2["extra_files"] = {outp: text}
         w2["stale_rerun"] = False
+        if "/" in outp:
+            # the rerun file lives in a sub-directory: behave resolves the (cwd-relative) locations
+            # in it relative to the list file's directory.  Probe that once, then continue the
+            # two-run history with a copy of the file in the working directory.
+            c2["paths_raw"] = ["@" + outp]
+            w2["extra_files"] = {outp: text}
+            hx = R.run_world(w2, root)
+            if stats is not None:
+                stats.note_run(w2, hx)
+                stats.probe("second-run-from-subdirectory")
+            if not hx.get("escaped") and [f["id"] for f in hx["census"]] != M.Selection(w2, hx).loaded:
+                out.append((world, O.V("C17", "second-run-selection", "rerun-file-in-subdirectory:not-loadable",
+                                       file=outp, tail="".join(c[2] for c in hx["tty_out"])[-160:]), None))
+            fed = "rerun_fed_back.txt"
+        else:
+            fed = outp
+        c2["paths_raw"] = ["@" + fed]
+        w2["extra_files"] = {fed: text}
         h2 = R.run_world(w2, root)
         p2 = M.Acceptor(w2, h2).run()
         if stats is not None:
@@ -613,7 +629,9 @@ def c17_eval_world(world, root, stats):
                         fn = f["filename"]
                 if "%s:%d" % (fn, node["line"]) in locs:
                     listed.add(sid)
-        extra = sorted(executed - listed)
+        exempt = set(sid for sid, node in idx2.items() if node["kind"] == "scenario"
+                     and ({"setup", "teardown"} & set(node["tags"])))     # C10's documented exemption
+        extra = sorted(executed - listed - exempt)
         if extra:
             out.append((world, O.V("C17", "second-run-selection", "executed-not-listed", scenarios=extra[:5]), None))
         for sid in sorted(listed):
